@@ -55,6 +55,21 @@ func init() {
 		setSelf.Add(args[0])
 		return NoneType{}, nil
 	}, 0, "add(value)")
+
+	SetType.Dict["update"] = MustNewMethod("update", func(self Object, args Tuple) (Object, error) {
+		setSelf := self.(*Set)
+		for _, arg := range args {
+			// Read the iterable completely first - it may be the set itself
+			items, err := SequenceTuple(arg)
+			if err != nil {
+				return nil, err
+			}
+			for _, item := range items {
+				setSelf.Add(item)
+			}
+		}
+		return NoneType{}, nil
+	}, 0, "update(*iterables) -> None.  Update a set with the union of itself and others.")
 }
 
 // Add an item to the set
